@@ -32,6 +32,9 @@ type Link struct {
 	cutAt  int // -1: none; reader sees the stream end at this absolute offset
 	cutErr error
 
+	endSeenStep int // 1 + scheduler step at which the reader was first handed the end of the stream (0: not yet)
+	endSeenAt   time.Time
+
 	fragMode    int // 0 whole, 1 random, 2 one byte
 	eofWithData bool
 	wantRead    int
@@ -279,6 +282,7 @@ func (l *Link) readOnce(p []byte, ctxErr func() error) (int, error, bool) {
 		if param&1 == 1 {
 			if end, err := l.ended(); end && err != nil {
 				l.EOFWithData++
+				l.noteEnd()
 				return n, err, false
 			}
 		}
@@ -288,10 +292,26 @@ func (l *Link) readOnce(p []byte, ctxErr func() error) (int, error, bool) {
 		if err == nil {
 			err = io.EOF
 		}
+		l.noteEnd()
 		return 0, err, false
 	}
 	// Woken without data: park again.
 	return 0, nil, true
+}
+
+func (l *Link) noteEnd() {
+	if l.endSeenStep == 0 {
+		l.endSeenStep = l.s.StepNow() + 1
+		l.endSeenAt = time.Now()
+	}
+}
+
+// EndSeen: the scheduler step and fake-clock instant at which the reader was
+// first handed the end of the stream (ok false: it never was).
+func (l *Link) EndSeen() (step int, at time.Time, ok bool) {
+	l.mu.Lock()
+	defer l.mu.Unlock()
+	return l.endSeenStep - 1, l.endSeenAt, l.endSeenStep != 0
 }
 
 // Push appends without gating or window check (used by the pump, which gates
